@@ -56,6 +56,12 @@ class RayGenerator:
         M = (y1 - y0) / mag
         N = (z1 - z0) / mag
 
+        # rays leave the object towards +z, also when the entrance pupil lies
+        # behind the starting point (the aim point is then on the backward
+        # extension of the ray)
+        sign = np.where(N < 0, -1.0, 1.0)
+        L, M, N = L * sign, M * sign, N * sign
+
         x0 = np.full_like(x1, x0)
         y0 = np.full_like(x1, y0)
         z0 = np.full_like(x1, z0)
